@@ -104,6 +104,7 @@ class Recorder:
         self.ambiguous = []          # reasons why this recording is outside what the convention defines
         self.hazard = False          # a boundary where re-reading the opcode after execution classifies the instruction differently
         self.pushed_af = False
+        self.taint = False           # executed BIT n,(HL) or a block instruction that repeated (undocumented flags, see c20.py)
 
     # ---- one frame
     def frame(self, flen):
@@ -123,6 +124,10 @@ class Recorder:
             st['instructions'] += 1
             if op0 == 0xF5:
                 self.pushed_af = True
+            elif op0 == 0xCB and op1 & 0xC7 == 0x46:
+                self.taint = True
+            elif op0 == 0xED and op1 & 0xF4 == 0xB0 and regs[PC] == pc:
+                self.taint = True
             if got:
                 ins.extend(got)
             for port, value in outs:
@@ -233,6 +238,21 @@ def frames_bytes(frames, repeat):
             out += struct.pack('<H', len(ins)) + ins
             prev = ins
     return bytes(out)
+
+def count_repeats(frames, repeat):
+    """How many frames frames_bytes() writes with the repeat marker: (with readings, without readings)."""
+    prev = None
+    n = m = 0
+    for fetch, ins in frames:
+        ins = bytes(ins)
+        if repeat and prev is not None and ins == prev and (ins or repeat == 'all'):
+            if ins:
+                n += 1
+            else:
+                m += 1
+        else:
+            prev = ins
+    return n, m
 
 def input_block(frames, tstates, compress, repeat):
     body = frames_bytes(frames, repeat)
